@@ -806,6 +806,30 @@ func (l *log) Get(offset int64) (message.Message, error) {""")]),
 			return segment.Stats{}, err
 		}
 """)]),
+ ("Migrate: carried timestamp as an explicit running maximum", [("pkg/segment/segment.go", """		item := params.NewItem(msg, migratedPosition, indexTime)
+		migratedIndex = append(migratedIndex, item)
+		indexTime = item.Timestamp""", """		item := params.NewItem(msg, migratedPosition, indexTime)
+		migratedIndex = append(migratedIndex, item)
+		indexTime = max(indexTime, item.Timestamp)""")]),
+ ("newReaderIndex: next offset through a helper over the last item", [("log_reader.go", """	nextOffset := offset
+	if len(items) > 0 {
+		nextOffset = items[len(items)-1].Offset + 1
+	}
+""", """	nextOffset := nextAfter(items, offset)
+"""), ("log_reader.go", "func newReaderIndex(", """func nextAfter(items []index.Item, base int64) int64 {
+	if n := len(items); n > 0 {
+		return items[n-1].Offset + 1
+	}
+	return base
+}
+
+func newReaderIndex(""")]),
+ ("TrimByOffset: argument check with an error before the finder", [("trim_offset.go", """func TrimByOffset(ctx context.Context, l Log, before int64) ([]Message, int64, error) {
+""", """func TrimByOffset(ctx context.Context, l Log, before int64) ([]Message, int64, error) {
+	if err := ctx.Err(); err != nil {
+		return nil, 0, err
+	}
+""")]),
 ]
 
 def main():
